@@ -1,10 +1,13 @@
 #!/bin/sh
 # usage: tools/seedtest.sh <Cnn> <patch.diff> [extra check args]  — applies a seeded change to /repo,
-# runs the quick check, and always restores /repo afterwards.
+# runs the quick check, and always restores /repo afterwards (also on interruption).
 P=$1; D=$2; shift 2
+cleanup() { cd /repo && git reset -q --hard HEAD && git clean -fdq FlowCal; }
+trap cleanup EXIT INT TERM PIPE
 cd /repo || exit 9
-git diff --quiet || { echo "/repo not clean"; exit 9; }
+[ -z "$(git status --porcelain)" ] || { echo "/repo not clean"; trap - EXIT; exit 9; }
 git apply --3way "$D" >/dev/null 2>&1 || git apply "$D" || { echo "patch does not apply"; exit 9; }
-cd /verif && ./check "$P" "$@" 2>&1 | grep -v conda | grep "VIOLATION\|what=\|INCONCL\|ERROR\|MODELGAP\|KNOWN"
-echo "exit=$?"
-cd /repo && git reset -q && git checkout -- . && git clean -fdq FlowCal
+git reset -q
+cd /verif && ./check "$P" "$@" > /tmp/w/seedtest.out 2>&1
+echo "check exit=$?"
+grep -v conda /tmp/w/seedtest.out | grep "VIOLATION\|what=\|INCONCL\|ERROR\|MODELGAP\|KNOWN" | cut -c1-400 | head -${SEEDTEST_LINES:-12}
